@@ -121,6 +121,9 @@ def driver(seed, count, sumif):
             args = [rng_arr, rcrit(rng, cells)]
         elif f in ('COUNTIFS', 'SUMIFS'):
             k = rng.randint(1, 4)
+            if rng.random() < 0.08:       # long columns: hundreds of cells per criteria range
+                n = rng.choice([127, 130, 260, 300])
+                k = rng.randint(2, 3)
             args = []
             for _ in range(k):
                 cells = rcolumn(rng, n, rng.choice([0.1, 0.5, 0.9]))
